@@ -398,8 +398,8 @@ def eval_coq(tag: str, preamble: str, terms: list[str], shard: int = 400, jobs: 
 
 
 # ----------------------------------------------------------------------------- worker
-MAX_FAULTS = 12          # per suite: hang / crash / oom outcomes after which the remaining cases are skipped
-FAULT_SECONDS = 240.0    # ... or this much time spent waiting for them
+MAX_FAULTS = 8           # per suite: hang / crash / oom outcomes after which the remaining cases are skipped
+FAULT_SECONDS = 150.0    # ... or this much time spent waiting for them
 
 
 def run_impl(module: str, suite: str, cases: list, per_case_timeout: float = 20.0, mem_mb: int = 2048,
@@ -453,7 +453,8 @@ def run_impl(module: str, suite: str, cases: list, per_case_timeout: float = 20.
         if start < len(cases):
             # the worker died on case `start`
             last = (out or "").strip().splitlines()[-3:]
-            kind = "hang" if pr.returncode in (-14, 124, -9) or "WORKER-TIMEOUT" in (out or "") else "crash"
+            kind = "hang" if pr.returncode in (-14, 124, -9) or "WORKER-TIMEOUT" in (out or "") or \
+                "Timeout (" in (out or "") else "crash"
             if "MemoryError" in (out or ""):
                 kind = "oom"
             results[start] = {"outcome": kind, "detail": " | ".join(last)[-500:], "rc": pr.returncode}
